@@ -33,6 +33,10 @@ fn run_all(scns: Vec<Scenario>, mk: &MkMon, tier: Tier) -> Vec<ExploreResult> {
 
 pub fn replay_e1(args: &Args, mk: &MkMon) -> Report {
     let v: serde_json::Value = serde_json::from_str(&std::fs::read_to_string(args.replay.as_ref().unwrap()).expect("replay file")).unwrap();
+    if v["case"]["engine"] == "daemon-dbx" {
+        // a finding of this check's real-daemon batch
+        return crate::props_e2::replay_dbx(&v);
+    }
     let scn: Scenario = serde_json::from_value(v["case"]["scenario"].clone()).expect("scenario");
     let events: Vec<Ev> = serde_json::from_value(v["case"]["events"].clone()).expect("events");
     let scn = std::sync::Arc::new(scn);
@@ -495,7 +499,7 @@ pub fn c04(args: &Args) -> Report {
         }
     }
     let res = run_all(scns, mk, args.tier);
-    with_conformance(fold(res, &["panic", "codec"], 0, json!({})), &[(true, false), (false, true)])
+    with_daemon_batch(with_conformance2(fold(res, &["panic", "codec"], 0, json!({})), &[(true, false), (false, true)], &["report-after-success"]), args, &["report-after-success"])
 }
 
 pub fn c18(args: &Args) -> Report {
